@@ -37,7 +37,7 @@ pub struct Strat {
     pub parts: Vec<(Arc<dyn CacheStrategy>, usize)>,
 }
 
-fn trained_predictor(cap: usize, hot_ids: &[u64]) -> LearnedCachePredictor {
+pub fn trained_predictor(cap: usize, hot_ids: &[u64]) -> LearnedCachePredictor {
     let mut p = LearnedCachePredictor::new(cap.max(1)).expect("predictor");
     let now = SystemTime::now();
     let mut ev = Vec::new();
